@@ -218,7 +218,7 @@ theorem powWordBase_spec (W base exp : Nat) (hb : base < 2 ^ W) (hexp : exp ≠ 
 
 -- ------------------------------------------------------------------ pow_large_base / TypedReprRef::pow
 
-theorem powLargeBase_spec (W : Nat) (hW : 3 ≤ W) (base : List Nat) (exp : Nat)
+theorem powLargeBase_spec (W : Nat) (hW : 4 ≤ W) (base : List Nat) (exp : Nat)
     (hb : (TRepr.large base).Canon W) (hexp : 2 ≤ exp) :
     (powLargeBase W base exp).value W = val W base ^ exp ∧ (powLargeBase W base exp).Canon W := by
   have hsq := TRepr.sqr_spec W hW (.large base) hb
@@ -227,7 +227,7 @@ theorem powLargeBase_spec (W : Nat) (hW : 3 ≤ W) (base : List Nat) (exp : Nat)
     (fun r hr => TRepr.mul_spec W hW r (.large base) hr hb)
     (fun r hr => TRepr.sqr_spec W hW r hr) exp hexp _ hsq.2 hsq.1
 
-theorem TRepr.pow_spec (W : Nat) (hW : 3 ≤ W) (a : TRepr) (exp : Nat) (ha : a.Canon W) :
+theorem TRepr.pow_spec (W : Nat) (hW : 4 ≤ W) (a : TRepr) (exp : Nat) (ha : a.Canon W) :
     (a.pow W exp).value W = a.value W ^ exp ∧ (a.pow W exp).Canon W := by
   unfold TRepr.pow
   split
@@ -256,7 +256,7 @@ theorem TRepr.pow_spec (W : Nat) (hW : 3 ≤ W) (a : TRepr) (exp : Nat) (ha : a.
 
 -- ------------------------------------------------------------------ UBig::pow / IBig::pow
 
-theorem ubigPow_spec (W : Nat) (hW : 3 ≤ W) (a : TRepr) (exp : Nat) (ha : a.Canon W) :
+theorem ubigPow_spec (W : Nat) (hW : 4 ≤ W) (a : TRepr) (exp : Nat) (ha : a.Canon W) :
     (ubigPow W a exp).value W = a.value W ^ exp ∧ (ubigPow W a exp).Canon W := by
   unfold ubigPow
   simp only
@@ -282,7 +282,7 @@ theorem neg_pow_int (m : Int) (exp : Nat) :
     have : exp = 2 * (exp / 2) := by omega
     rw [this, pow_mul, pow_mul, neg_sq]
 
-theorem ibigPow_spec (W : Nat) (hW : 3 ≤ W) (a : SRepr) (exp : Nat) (ha : a.WF W) :
+theorem ibigPow_spec (W : Nat) (hW : 4 ≤ W) (a : SRepr) (exp : Nat) (ha : a.WF W) :
     (ibigPow W a exp).value W = a.value W ^ exp ∧ (ibigPow W a exp).WF W := by
   obtain ⟨an, am⟩ := a
   have hu := ubigPow_spec W hW am exp ha.1
@@ -297,7 +297,7 @@ theorem ibigPow_spec (W : Nat) (hW : 3 ≤ W) (a : SRepr) (exp : Nat) (ha : a.WF
     by_cases h : exp % 2 = 1 <;> simp [h]
 
 /-- the sign of `IBig::pow`: negative iff the base is negative and the exponent is odd -/
-theorem ibigPow_neg_iff (W : Nat) (hW : 3 ≤ W) (a : SRepr) (exp : Nat) (ha : a.WF W) :
+theorem ibigPow_neg_iff (W : Nat) (hW : 4 ≤ W) (a : SRepr) (exp : Nat) (ha : a.WF W) :
     (ibigPow W a exp).value W < 0 ↔ (a.value W < 0 ∧ exp % 2 = 1) := by
   obtain ⟨an, am⟩ := a
   have hu := ubigPow_spec W hW am exp ha.1
